@@ -431,6 +431,7 @@ class Frame:
         self.raises = []      # (state, node, excname)
         self.loops = []       # stack of dicts {breaks:[], continues:[]}
         self.trys = []        # stack of lists collecting raise events
+        self.try_opaque = []  # parallel stack: did the try body contain an unmodelled call?
 
     def stack_quals(self):
         out = []
@@ -746,8 +747,10 @@ class Engine:
 
     def s_Try(self, fr, st, s):
         fr.trys.append([])
+        fr.try_opaque.append(False)
         body_out = self.block(fr, st.body, [s])
         events = fr.trys.pop()
+        opaque = fr.try_opaque.pop()
         out = []
         if st.orelse:
             body_out = self.block(fr, st.orelse, body_out)
@@ -767,7 +770,8 @@ class Engine:
             for (es, node, exc) in events:
                 if names is None or self._exc_match(exc, names):
                     entries.append(es)
-            entries.append(hv)
+            if opaque:
+                entries.append(hv)
             hs = []
             for es in entries:
                 e2 = es.copy()
@@ -1414,6 +1418,10 @@ class Engine:
                 self._raise(fr, e, "IndexError", s)
                 return []
             return [self._ranged(s, ("item", base.name, vkey(idx)), list(tgt))]
+        if fr.trys and isinstance(base, (Obj, Unk)):
+            # an unmodelled container: the look-up may fail (only tracked where a handler can observe it)
+            self._raise(fr, e, "KeyError", s)
+            self._raise(fr, e, "IndexError", s)
         if isinstance(base, Unk) and isinstance(idx, Num) and idx.lin.is_const():
             return [(s, Unk(("item", base.term, int(idx.lin.k))))]
         return [(s, Unk(("index", vkey(base), vkey(idx), s.epoch)))]
@@ -1565,9 +1573,25 @@ class Engine:
         res = self.hooks.on_call(self, fr, e, ("value", fn), args, kwargs, s)
         if res is not None:
             return res if isinstance(res, list) else [(s, res)]
+        self._mark_opaque(fr)
         s2 = s.copy()
         s2.epoch += 1
         return [(s2, Unk(("callres", vkey(fn), tuple(vkey(a) for a in args), s.epoch)))]
+
+    NONRAISING_EXT = {"len", "isinstance", "min", "max", "range", "enumerate", "reversed", "tuple", "list", "str", "repr",
+                      "print", "warnings.warn", "bool", "functools.partial", "sorted", "set", "dict", "zip", "any", "all",
+                      "id", "abs", "callable", "type", "frozenset"}
+    NONRAISING_METH = {"append", "appendleft", "extend", "add", "update", "get", "items", "keys", "values", "format", "join",
+                       "lower", "upper", "capitalize", "strip", "startswith", "endswith", "find", "rfind", "count", "isnumeric",
+                       "isdigit", "isalpha", "islower", "isupper", "copy", "setdefault", "discard", "clear", "split", "replace",
+                       "insert", "sort", "reverse", "groups", "match", "cache_clear"}
+
+    def _mark_opaque(self, fr):
+        f = fr
+        while f is not None:
+            for i in range(len(f.try_opaque)):
+                f.try_opaque[i] = True
+            f = f.parent
 
     def is_pure(self, f):
         """no write to objects that exist outside f's own dynamic extent"""
@@ -1612,6 +1636,7 @@ class Engine:
                     rs2.env = dict(s.env)
                     self._raise_propagate(fr, node, exc, rs2)
                 return out
+        self._mark_opaque(fr)
         s2 = s.copy()
         if not self.is_pure(f):
             s2.epoch += 1
@@ -1692,6 +1717,7 @@ class Engine:
                         rs2.env = dict(s.env)
                         self._raise_propagate(fr, node, exc, rs2)
                     return out
+            self._mark_opaque(fr)
             s2 = s.copy()
             pure = self.is_pure(m)
             if not pure:
@@ -1745,6 +1771,25 @@ class Engine:
             return [(s2, Num(Lin.var(t)))]
         mutators = {"append", "appendleft", "extend", "insert", "pop", "popleft", "remove", "clear", "sort", "reverse",
                     "update", "setdefault", "add", "discard", "popitem"}
+        # precise model of list growth for a local list of known length (straight-line / unrolled code)
+        if isinstance(base, Tup) and base.kind == "list" and isinstance(e, ast.Call) and isinstance(e.func, ast.Attribute) \
+                and isinstance(e.func.value, ast.Name) and s.env.get(e.func.value.id) is base and not kwargs:
+            nm = e.func.value.id
+            new = None
+            if attr == "append" and len(args) == 1:
+                new = Tup(base.items + (args[0],), "list")
+            elif attr == "extend" and len(args) == 1 and isinstance(args[0], Tup):
+                new = Tup(base.items + args[0].items, "list")
+            elif attr == "insert" and len(args) == 2 and isinstance(args[0], Num) and args[0].lin.is_const() \
+                    and 0 <= args[0].lin.k <= len(base.items):
+                k = int(args[0].lin.k)
+                new = Tup(base.items[:k] + (args[1],) + base.items[k:], "list")
+            if new is not None and len(new.items) <= 64:
+                s2 = s.copy()
+                s2.env[nm] = new
+                return [(s2, NONE)]
+        if attr not in self.NONRAISING_METH:
+            self._mark_opaque(fr)
         s2 = s
         if attr in mutators:
             s2 = s.copy()
@@ -1759,6 +1804,8 @@ class Engine:
         if res is not None:
             return res if isinstance(res, list) else [(s, res)]
         short = name[9:] if name.startswith("builtins.") else name
+        if short not in self.NONRAISING_EXT and short != "next":
+            self._mark_opaque(fr)
         if short in ("min", "max") and len(args) >= 2 and not starred_unknown:
             nums = [self.num(a, s) for a in args]
             if all(n is not None for n in nums):
